@@ -597,6 +597,10 @@ class RExprTr:
             return f"({self.num(node.left)} {self.BIN[type(node.op)]} {self.num(node.right)})"
         if isinstance(node, ast.UnaryOp) and isinstance(node.op, ast.USub):
             return f"(- {self.num(node.operand)})"
+        if isinstance(node, ast.BinOp) and isinstance(node.op, ast.Pow) and isinstance(node.right, ast.Constant) \
+                and float(node.right.value) == 2.0:
+            x = self.num(node.left)
+            return f"({x} * {x})"
         if isinstance(node, ast.Call) and ast.unparse(node.func) in self.FUN and len(node.args) == 1 and not node.keywords:
             return f"({self.FUN[ast.unparse(node.func)]} {self.num(node.args[0])})"
         self.err(node)
